@@ -17,9 +17,12 @@ type Env struct {
 	vars   map[string]TV
 	parent *Env
 	local  func(string) (TV, bool)
+	mut    map[string]bool // parameters the body assigns (loop-carried): inside the body their current value wins
 	st     *State
 	old    *State
 	pkg    *types.Package
+	// isParamScope marks the environment that binds the function's parameters
+	isParamScope bool
 }
 
 func (s *Sym) newEnv(pkg *types.Package) *Env {
@@ -27,10 +30,23 @@ func (s *Sym) newEnv(pkg *types.Package) *Env {
 }
 
 func (e *Env) child() *Env {
-	return &Env{s: e.s, vars: map[string]TV{}, parent: e, local: e.local, st: e.st, old: e.old, pkg: e.pkg}
+	return &Env{s: e.s, vars: map[string]TV{}, parent: e, local: e.local, mut: e.mut, st: e.st, old: e.old, pkg: e.pkg}
 }
 
 func (e *Env) lookup(name string) (TV, bool) {
+	if e.local != nil && e.mut[name] {
+		shadowed := false
+		for x := e; x != nil; x = x.parent {
+			if _, ok := x.vars[name]; ok && x.parent != nil && !x.isParamScope {
+				shadowed = true // a quantifier / let binding of the same name
+			}
+		}
+		if !shadowed {
+			if v, ok := e.local(name); ok {
+				return v, true
+			}
+		}
+	}
 	for x := e; x != nil; x = x.parent {
 		if v, ok := x.vars[name]; ok {
 			return v, true
@@ -154,6 +170,10 @@ func (s *Sym) ev(env *Env, e Expr) TV {
 		for _, v := range x.Vars {
 			so, gt := s.P.specType(v.Type)
 			n := q("qv:" + v.Name)
+			if s.qvSort == nil {
+				s.qvSort = map[string]string{}
+			}
+			s.qvSort[n] = so
 			c.vars[v.Name] = TV{T: n, S: so, GT: gt}
 			decl = append(decl, fmt.Sprintf("(%s %s)", n, so))
 		}
@@ -336,10 +356,14 @@ func (s *Sym) fieldOf(env *Env, b TV, name string) TV {
 // heapWellFormed: references read from the heap are allocated (below the watermark
 // of the state they are read in). Emitted as a ground fact for closed terms.
 func (s *Sym) heapWellFormed(env *Env, v TV) {
-	if strings.Contains(v.T, "|qv:") || strings.Contains(v.T, "|sp:") || strings.Contains(v.T, "|hp:") {
+	if strings.Contains(v.T, "|sp:") || strings.Contains(v.T, "|hp:") {
 		return
 	}
 	if _, rec := recState[env.st]; rec {
+		return
+	}
+	if strings.Contains(v.T, "|qv:") {
+		s.quantifiedWellFormed(env, v)
 		return
 	}
 	var t string
@@ -374,6 +398,69 @@ func (s *Sym) heapWellFormed(env *Env, v TV) {
 	}
 	s.declared[key] = true
 	s.emit(fmt.Sprintf("(assert (and (>= %s 0) (<= %s %s)))", t, t, s.top(env.st)))
+}
+
+// quantifiedWellFormed: allocation fact for a heap read whose address mentions bound
+// variables. Every reference stored anywhere in the heap of a state is at most that
+// state's allocation watermark, whatever the index, so the fact is asserted
+// universally over the bound variables occurring in the term.
+func (s *Sym) quantifiedWellFormed(env *Env, v TV) {
+	var t string
+	switch {
+	case v.S == "Int" && (isRefLike(v.GT) || (v.GT != nil && isStructPtrOrStruct(v.GT))):
+		t = v.T
+	case v.S == "Slice":
+		t = "(sl-arr " + v.T + ")"
+	default:
+		return
+	}
+	if !strings.HasPrefix(v.T, "(select ") {
+		return
+	}
+	key := "wfq:" + t + "@" + s.top(env.st)
+	if s.declared[key] {
+		return
+	}
+	// a read from a derived (define-fun) map: the fact follows from the one about the
+	// map it derives from, and the macro could not stand in a pattern anyway
+	for _, tok := range strings.FieldsFunc(v.T, func(r rune) bool { return r == ' ' || r == '(' || r == ')' }) {
+		if s.definedNames[tok] {
+			return
+		}
+	}
+	var decl []string
+	seen := map[string]bool{}
+	rest := v.T
+	for {
+		i := strings.Index(rest, "|qv:")
+		if i < 0 {
+			break
+		}
+		j := strings.Index(rest[i+1:], "|")
+		if j < 0 {
+			return
+		}
+		name := rest[i : i+j+2]
+		rest = rest[i+j+2:]
+		if seen[name] {
+			continue
+		}
+		seen[name] = true
+		so, ok := s.qvSort[name]
+		if !ok {
+			return
+		}
+		decl = append(decl, fmt.Sprintf("(%s %s)", name, so))
+	}
+	if len(decl) == 0 {
+		return
+	}
+	s.declared[key] = true
+	extra := ""
+	if v.S == "Slice" {
+		extra = fmt.Sprintf(" (>= (sl-len %s) 0) (=> (= (sl-arr %s) 0) (= (sl-len %s) 0))", v.T, v.T, v.T)
+	}
+	s.emit(fmt.Sprintf("(assert (forall (%s) (! (and (>= %s 0) (<= %s %s)%s) :pattern (%s))))", strings.Join(decl, " "), t, t, s.top(env.st), extra, v.T))
 }
 
 func isStructPtrOrStruct(t types.Type) bool {
@@ -413,7 +500,15 @@ func (s *Sym) evIndex(env *Env, b, i TV) TV {
 			_, vn := MapMapNames(mt)
 			ks, vs := SortOf(mt.Key()), SortOf(mt.Elem())
 			vv := s.getMap(env.st, vn, "(Array Int (Array "+ks+" "+vs+"))")
-			return TV{T: fmt.Sprintf("(select (select %s %s) %s)", vv, b.T, i.T), S: vs, GT: mt.Elem()}
+			raw := TV{T: fmt.Sprintf("(select (select %s %s) %s)", vv, b.T, i.T), S: vs, GT: mt.Elem()}
+			s.heapWellFormed(env, raw)
+			// Go semantics: an absent key (or the nil map) reads as the zero value
+			if z := zeroOf(vs); z != "" && !strings.HasPrefix(vs, "(") {
+				dn, _ := MapMapNames(mt)
+				dd := s.getMap(env.st, dn, "(Array Int (Array "+ks+" Bool))")
+				return TV{T: fmt.Sprintf("(ite (and (not (= %s 0)) (select (select %s %s) %s)) %s %s)", b.T, dd, b.T, i.T, raw.T, z), S: vs, GT: mt.Elem()}
+			}
+			return raw
 		}
 	}
 	bad("cannot index value of sort %s", b.S)
@@ -673,6 +768,19 @@ func (s *Sym) evCall(env *Env, x ECall) TV {
 		ms := "(Array Int " + mapSortOfElem(es) + ")"
 		e1, e0 := s.getMap(env.st, name, ms), s.getMap(env.old, name, ms)
 		return TV{T: fmt.Sprintf("(forall ((aa Int)) (=> (<= aa %s) (= (select %s aa) (select %s aa))))", s.top(env.old), e1, e0), S: "Bool"}
+	case "content": // content(slice): the backing array's current content as an array value (a rigid snapshot)
+		a := argv()
+		if a[0].S != "Slice" {
+			bad("content() needs a slice")
+		}
+		es := "Int"
+		if a[0].GT != nil {
+			if st, ok := a[0].GT.Underlying().(*types.Slice); ok {
+				es = SortOf(st.Elem())
+			}
+		}
+		m := s.getMap(env.st, "E:"+sortTag(es), "(Array Int "+mapSortOfElem(es)+")")
+		return TV{T: fmt.Sprintf("(select %s (sl-arr %s))", m, a[0].T), S: mapSortOfElem(es)}
 	case "allocTop": // allocation watermark of the current state (all allocated references are <= it)
 		return TV{T: s.top(env.st), S: "Int"}
 	case "isfresh": // reference allocated after the old state
@@ -976,6 +1084,14 @@ func (s *Sym) useAxiom(name string) {
 		return
 	}
 	ax, ok := s.P.Specs.Axioms[name]
+	if !ok {
+		// a lemma (proved as its own obligation under its property) may be used like an axiom
+		for _, lm := range s.P.Specs.Lemmas {
+			if lm.Name == name {
+				ax, ok = &Axiom{Name: lm.Name, E: lm.E}, true
+			}
+		}
+	}
 	if !ok {
 		s.fail("unknown axiom %s", name)
 		return
